@@ -37,10 +37,12 @@ Theorem rejected_changes_nothing : forall v st i t k,
 Proof. exact rejected_same. Qed.
 Print Assumptions rejected_changes_nothing.
 
-(* part 3: any other string / closed / expired: a token with no unexpired session is rejected *)
-Theorem token_without_live_session_rejected : forall v st i t k,
+(* part 3: any other string / closed / expired: a token with no unexpired session is rejected, whatever the method
+   (content of every type, listing by type or by collection, key creation and import, Query, Issue, Prove, Verify,
+   Derive, ResolveCredentialManifest, SignJWT) *)
+Theorem token_without_live_session_rejected : forall st i t k,
   (forall s, In s (sessions st) -> s_tok s = t -> live (now st) s = false) ->
-  admitted (snd (step v st (WOp i t k))) = false.
+  admitted (snd (step Fixed st (WOp i t k))) = false.
 Proof. exact dead_token_rejected. Qed.
 Print Assumptions token_without_live_session_rejected.
 
@@ -59,9 +61,9 @@ Proof. exact close_revokes. Qed.
 Print Assumptions close_revokes_every_token_of_the_profile.
 
 (* after expiry: once time has passed the expiry of the token's session(s), the token is rejected *)
-Theorem expired_token_rejected : forall v st t dt i k,
+Theorem expired_token_rejected : forall st t dt i k,
   (forall s, In s (sessions st) -> s_tok s = t -> s_exp s < now st + dt) ->
-  admitted (snd (step v (fst (step v st (WTick dt))) (WOp i t k))) = false.
+  admitted (snd (step Fixed (fst (step Fixed st (WTick dt))) (WOp i t k))) = false.
 Proof. exact tick_expires. Qed.
 Print Assumptions expired_token_rejected.
 
@@ -77,18 +79,15 @@ Theorem at_most_one_live_token_per_profile : forall v ops u t1 t2,
 Proof. exact one_live_token. Qed.
 Print Assumptions at_most_one_live_token_per_profile.
 
-(* ISOLATION.  Reads through an instance of profile u return rows of u's store only ... *)
-Theorem get_returns_own_rows_only : forall v st i t c u h st' x,
+(* ISOLATION.  Whatever a token operation hands back (Get: a value; GetAll by type or by collection: rows) is a row
+   of the store of the profile of the instance it was called on ... *)
+Theorem reads_return_own_rows_only : forall v st i t k u h st' r,
   nth_error (insts st) i = Some (u, h) ->
-  step v st (WOp i t (KGet c)) = (st', RVal x) -> In (u, (c, x)) (contents st).
-Proof. exact get_reads_own. Qed.
-Print Assumptions get_returns_own_rows_only.
-
-Theorem getall_returns_own_rows_only : forall v st i t u h st' l,
-  nth_error (insts st) i = Some (u, h) ->
-  step v st (WOp i t KGetAll) = (st', RAll l) -> forall c x, In (c, x) l -> In (u, (c, x)) (contents st).
-Proof. exact getall_reads_own. Qed.
-Print Assumptions getall_returns_own_rows_only.
+  step v st (WOp i t k) = (st', r) ->
+  (forall x, r = RVal x -> exists c, k = KGet c /\ In (u, (c, x)) (contents st)) /\
+  (forall l, r = RAll l -> forall c x, In (c, x) l -> In (u, (c, x)) (contents st)).
+Proof. exact wop_reads_own. Qed.
+Print Assumptions reads_return_own_rows_only.
 
 (* ... no operation changes the rows of a profile other than the one of the instance it was called on ... *)
 Theorem other_profiles_rows_untouched : forall v st o u',
@@ -128,6 +127,37 @@ Theorem key_ownership_asis_refuted :
 Proof. split; vm_compute; reflexivity. Qed.
 Print Assumptions key_ownership_asis_refuted.
 
+(* the code before fix: 27c6940 let Verify / Derive / ResolveCredentialManifest with raw input succeed with a token that
+   was never issued, as long as the wallet instance was unlocked *)
+Theorem raw_input_methods_asis_refuted :
+  all_admitted_own AsIs init (witness_setup ++ [WOp 0%nat 900 (KUse MVerifyRaw 0 0); WOp 0%nat 900 (KUse MDeriveRaw 0 0);
+                                                WOp 0%nat 900 (KUse MResolveRaw 0 0)]) = false /\
+  snd (run Fixed init (witness_setup ++ [WOp 0%nat 900 (KUse MVerifyRaw 0 0); WOp 0%nat 900 (KUse MDeriveRaw 0 0);
+                                         WOp 0%nat 900 (KUse MResolveRaw 0 0)]))
+  = [RDone; RDone; RDone; RDone; RTok 0; RTok 1; RBadToken; RBadToken; RBadToken].
+Proof. split; vm_compute; reflexivity. Qed.
+Print Assumptions raw_input_methods_asis_refuted.
+
+(* KNOWN FINDING (design level: one key store for all profiles).  FULL isolation of keys would say: the answer to
+   a key import through profile u is the answer u would get if the key rows of all other profiles did not exist.
+   Refuted on the faithful model: profile 2 is told "already exists" for an id that only profile 1 holds. *)
+Theorem import_answer_independent_of_other_profiles_refuted :
+  let st := fst (run Fixed init (witness_setup ++ [WOp 0%nat 0 (KImportKey 1001)])) in
+  nth_error (insts st) 1%nat = Some (2, true) /\
+  snd (step Fixed st (WOp 1%nat 1 (KImportKey 1001))) = RExists /\
+  snd (step Fixed (upd_keys st (keys_of (keys st) 2) (next_key st)) (WOp 1%nat 1 (KImportKey 1001))) = RDone.
+Proof. vm_compute. repeat split. Qed.
+Print Assumptions import_answer_independent_of_other_profiles_refuted.
+
+(* ... and it holds whenever no other profile holds a key under the requested id (the refuted class exactly) *)
+Theorem import_answer_independent_of_other_profiles_partial : forall st i t kn u h,
+  nth_error (insts st) i = Some (u, h) ->
+  (forall p, In p (keys st) -> fst p = kn -> snd p = u) ->
+  snd (step Fixed st (WOp i t (KImportKey kn))) =
+  snd (step Fixed (upd_keys st (keys_of (keys st) u) (next_key st)) (WOp i t (KImportKey kn))).
+Proof. exact import_alone. Qed.
+Print Assumptions import_answer_independent_of_other_profiles_partial.
+
 (* NON-VACUITY: a concrete two-profile history in which own tokens are admitted and return data, a foreign live
    token, a closed token, an expired token and a never-issued token are rejected, and a use re-arms the expiry *)
 Example gate_nonvacuous :
@@ -147,4 +177,19 @@ Proof. vm_compute. reflexivity. Qed.
 
 Example grants_nonvacuous :
   grants_run Fixed init (witness_setup ++ [WClose 0%nat; WOpen 0%nat true 10]) = [(0, 1); (1, 2); (2, 1)].
+Proof. vm_compute. reflexivity. Qed.
+
+(* every method class gets past the gate with the own live token once its data is there *)
+Example methods_nonvacuous :
+  snd (run Fixed init (witness_setup ++
+    [WOp 0%nat 0 (KImportKey 1001); WOp 0%nat 0 (KAdd 101 5); WOp 0%nat 0 (KAddIn 201 6 101);
+     WOp 0%nat 0 (KGetAllIn 2 101); WOp 0%nat 0 (KGetAll 2); WOp 0%nat 0 KCreateKey;
+     WOp 0%nat 0 (KUse MQuery 0 0); WOp 0%nat 0 (KUse MIssue 0 1001); WOp 0%nat 0 (KUse MProveStored 201 1001);
+     WOp 0%nat 0 (KUse MVerifyStored 201 0); WOp 0%nat 0 (KUse MDeriveStored 201 0);
+     WOp 0%nat 0 (KUse MResolveStored 201 0); WOp 0%nat 0 (KUse MSignJWT 0 0);
+     WOp 1%nat 0 (KUse MIssue 0 1001); WOp 1%nat 1 (KUse MIssue 0 1001); WOp 1%nat 1 (KImportKey 1001)]))
+  = [RDone; RDone; RDone; RDone; RTok 0; RTok 1;
+     RDone; RDone; RDone; RAll [(201, 6)]; RAll [(201, 6)]; RKey 0;
+     RDone; RDone; RDone; RDone; RDone; RDone; RDone;
+     RBadToken; RNotFound; RExists].
 Proof. vm_compute. reflexivity. Qed.
